@@ -39,6 +39,10 @@ type World struct {
 
 	Lists int
 	Gets  int
+
+	// ServiceReadFault, when set, is consulted before every Get of a Service (kind "get") and List of Services (kind "list"):
+	// a non-nil error is returned to the caller (an API server / cache read failing).
+	ServiceReadFault func(kind string) error
 }
 
 func NewWorld() *World { return &World{} }
@@ -121,6 +125,11 @@ func (w *World) Node(name string) *corev1.Node {
 
 func (w *World) Get(ctx context.Context, key client.ObjectKey, obj client.Object, opts ...client.GetOption) error {
 	w.Gets++
+	if _, isSvc := obj.(*corev1.Service); isSvc && w.ServiceReadFault != nil {
+		if err := w.ServiceReadFault("get"); err != nil {
+			return err
+		}
+	}
 	switch o := obj.(type) {
 	case *corev1.Service:
 		s := w.Service(key.Namespace, key.Name)
@@ -150,6 +159,11 @@ func (w *World) Get(ctx context.Context, key client.ObjectKey, obj client.Object
 
 func (w *World) List(ctx context.Context, list client.ObjectList, opts ...client.ListOption) error {
 	w.Lists++
+	if _, isSvc := list.(*corev1.ServiceList); isSvc && w.ServiceReadFault != nil {
+		if err := w.ServiceReadFault("list"); err != nil {
+			return err
+		}
+	}
 	lo := client.ListOptions{}
 	lo.ApplyOptions(opts)
 	inNS := func(ns string) bool { return lo.Namespace == "" || lo.Namespace == ns }
